@@ -31,6 +31,7 @@ import (
 	wrapping "github.com/hashicorp/go-kms-wrapping/v2"
 	"github.com/hashicorp/nodeenrollment"
 	"github.com/hashicorp/nodeenrollment/protocol"
+	"github.com/hashicorp/nodeenrollment/registration"
 	nodetls "github.com/hashicorp/nodeenrollment/tls"
 	"github.com/hashicorp/nodeenrollment/types"
 	"google.golang.org/protobuf/proto"
@@ -493,6 +494,52 @@ func (w *fzWorld) genCases(c *engine.Ctx, rng *rand.Rand) []fzCase {
 	hostile("encryption key 5 bytes", func(i *types.FetchNodeCredentialsInfo) { i.EncryptionPublicKeyBytes = world.RandBytes(5) }, nil)
 	hostile("encryption key all zero", func(i *types.FetchNodeCredentialsInfo) { i.EncryptionPublicKeyBytes = make([]byte, 32) }, nil)
 	hostile("fetch for a registered key with another nonce", func(i *types.FetchNodeCredentialsInfo) {}, nil)
+	// (b2) the same kind of request after the operator authorized it (AuthorizeNode looks at the signed
+	// bundle, not at every field in it) or carried by a valid activation token: the listener now goes all the
+	// way to encrypting credentials for whatever the node put into its request
+	authorized := func(detail string, mut func(*types.FetchNodeCredentialsInfo)) {
+		k := world.NewKeys()
+		info := world.BaseInfo(k, enc.Pub, world.RandBytes(32))
+		mut(info)
+		req := world.Sign(info, k.Priv)
+		if _, err := registration.AuthorizeNode(w.s.Ctx, w.s.Store, req, w.s.Opts()...); err != nil {
+			c.R.Count("authorize_refused_odd_request", 1)
+			return
+		}
+		b, _ := proto.Marshal(req)
+		add("authorized-hostile", "operator-authorized, "+detail, protosOf(fp, b64(b)))
+	}
+	tokened := func(detail string, mut func(*types.FetchNodeCredentialsInfo)) {
+		_, tok, err := registration.CreateServerLedActivationToken(w.s.Ctx, w.s.Store, &types.ServerLedRegistrationRequest{}, w.s.Opts()...)
+		if err != nil {
+			return
+		}
+		n, err := world.NewNode(false, tok)
+		if err != nil {
+			return
+		}
+		hr, err := n.FetchRequest()
+		if err != nil {
+			return
+		}
+		info := world.DecodeInfo(hr)
+		if info == nil {
+			return
+		}
+		mut(info)
+		b, _ := proto.Marshal(world.Sign(info, n.K.Priv))
+		add("authorized-hostile", "valid activation token, "+detail, protosOf(fp, b64(b)))
+	}
+	for _, n := range []int{1, 16, 31, 33, 64} {
+		n := n
+		for _, f := range []func(string, func(*types.FetchNodeCredentialsInfo)){authorized, tokened} {
+			f(fmt.Sprintf("encryption key %d bytes", n), func(i *types.FetchNodeCredentialsInfo) { i.EncryptionPublicKeyBytes = world.RandBytes(n) })
+		}
+	}
+	for _, f := range []func(string, func(*types.FetchNodeCredentialsInfo)){authorized, tokened} {
+		f("encryption key all zero", func(i *types.FetchNodeCredentialsInfo) { i.EncryptionPublicKeyBytes = make([]byte, 32) })
+		f("encryption key type enum out of range", func(i *types.FetchNodeCredentialsInfo) { i.EncryptionPublicKeyType = 77 })
+	}
 	// auth requests with odd fields
 	authHostile := func(detail string, mut func(*types.GenerateServerCertificatesRequest)) {
 		n := world.RandBytes(32)
@@ -776,6 +823,7 @@ func runFuzzListen(c *engine.Ctx) engine.Result {
 	r.Require("canary_directly_after_a_parse_failure", 100)
 	r.Require("temporary_errors", 50)
 	r.Require("class:signed-hostile", 10)
+	r.Require("class:authorized-hostile", 8)
 	r.Require("class:signed-with-certpref", 10)
 	r.Require("class:odd-client-cert", 16)
 	r.Require("class:crafted-hello", 100)
